@@ -65,31 +65,52 @@ EMPair(a,b) == {a.dim, b.dim} = {"Qm","Qc"} \/ b.dim \in a.em \/ a.dim \in b.em
 UnytKinds == {"q","a","az","c","tq","tqa"}
 QKinds == {"q","tq"}
 AKinds == {"a","az","c","tqa"}
-ListQ == {"lq","lqm"}
+\* sequences of quantities: lq [3u, 5/2 u], lqm [3u, 5/2 u'] (two dimensions), tlq / tlqm the same as tuples,
+\* lqm3 [3u, 5/2 u, 2u'] (the foreign dimension comes third)
+ListQ == {"lq","lqm","tlq","tlqm","lqm3"}
+MixedQ == {"lqm","tlqm","lqm3"}
+\* heterogeneous sequences - bare numbers next to quantities: lzq [0.0, 5u], lbq [3.0, 5u], lqb [3u, 5/2]
+HetList == {"lzq","lbq","lqb"}
 BareNumber == {"bs","z","ts","ds","nz","ns","is"}
 BareZero == {"z","za","zl","nz","nza"}
 BareKinds == {"bs","ba","bl","z","za","zl","ts","ds","nz","ns","is","ta","tm","t32","tl","nza","na"}
 SpecialKinds == {"ts","ds","nz","ns","is","ta","tm","t32","tl","nza","na","tq","tqa"}
 OpaqueKinds == SpecialKinds \ {"nz","nza"}          \* numbers not held by the model: results are not compared
 ZeroKinds == {"z","za","zl","az","nz","nza"}          \* every entry is exactly zero (-0.0 is zero)
-AllKinds == UnytKinds \cup ListQ \cup BareKinds
-Shape(k) == IF k \in {"q","bs","z","ts","ds","nz","ns","is","tq"} THEN "s" ELSE IF k = "c" THEN "c" ELSE "v"
+AllKinds == UnytKinds \cup ListQ \cup HetList \cup BareKinds
+Shape(k) == IF k \in {"q","bs","z","ts","ds","nz","ns","is","tq"} THEN "s" ELSE IF k = "c" THEN "c" ELSE IF k = "lqm3" THEN "w" ELSE "v"
 BaseVals(pos) == IF pos = 0 THEN <<R(3), <<5,2>>>> ELSE <<R(2), R(5)>>
 Vals(k,pos) == IF k \in ZeroKinds THEN (IF Shape(k) = "s" THEN <<RZero>> ELSE <<RZero,RZero>>)
-               ELSE IF Shape(k) = "s" THEN <<BaseVals(pos)[1]>> ELSE BaseVals(pos)
-Operand(k,n,pos) == [kind |-> k, unit |-> IF k \in UnytKinds \cup ListQ THEN U(n) ELSE Dimless,
-                     isunyt |-> k \in UnytKinds, sh |-> Shape(k), vals |-> Vals(k,pos), mixed |-> k = "lqm", noadopt |-> FALSE,
-                     zero |-> k \in ZeroKinds, opq |-> k \in OpaqueKinds]
+               ELSE IF Shape(k) = "s" THEN <<BaseVals(pos)[1]>>
+               ELSE IF k = "lqm3" THEN BaseVals(pos) \o <<R(2)>>
+               ELSE IF k = "lzq" THEN <<RZero, BaseVals(pos)[2]>> ELSE BaseVals(pos)
+\* hetfail: _coerce_iterable_units finds element units that differ (a bare number counts as the NULL unit) and calls
+\* .in_units on every element - a bare number has no such method
+Operand(k,n,pos) == [kind |-> k, unit |-> IF k \in UnytKinds \cup ListQ \cup HetList THEN U(n) ELSE Dimless,
+                     isunyt |-> k \in UnytKinds, sh |-> Shape(k), vals |-> Vals(k,pos), mixed |-> k \in MixedQ, noadopt |-> FALSE,
+                     zero |-> k \in ZeroKinds, opq |-> k \in OpaqueKinds,
+                     hetfail |-> k \in HetList /\ ~UEq(U(n), Dimless)]
 \* the repaired zero scan (fixes/C01-zero-unyt-array.patch): a unyt_array never adopts
 OperandR(k,n,pos) == [Operand(k,n,pos) EXCEPT !.noadopt = k \in UnytKinds]
 \* np.count_nonzero(operand) == 0: exact zeros only, however small the other entries are
 AllZero(o) == ~o.noadopt /\ o.zero
 \* the dimension the property sees: bare data is dimensionless, a mixed list has no single dimension
-PDim(k,n) == IF k = "lqm" THEN "mixed" ELSE IF k \in UnytKinds \cup ListQ \cup {"u"} THEN U(n).dim ELSE "1"
+PDim(k,n) == IF k \in MixedQ THEN "mixed" ELSE IF k \in UnytKinds \cup ListQ \cup HetList \cup {"u"} THEN U(n).dim ELSE "1"
+\* the second dimension of a mixed sequence (gamma builds it the same way)
+OtherUnit(u) == U(IF u.dim = "L" THEN "ta" ELSE "la")
+\* what an operand consists of, for the property: a set of element classes [dim, bz (an exactly-zero bare entry), b (bare)]
+El(d, bz, b) == [dim |-> d, bz |-> bz, b |-> b]
+Elems(k,n) ==
+  CASE k \in MixedQ -> {El(U(n).dim, FALSE, FALSE), El(OtherUnit(U(n)).dim, FALSE, FALSE)}
+    [] k \in UnytKinds \cup ListQ \cup {"u"} -> {El(U(n).dim, FALSE, FALSE)}
+    [] k = "lzq" -> {El("1", TRUE, TRUE), El(U(n).dim, FALSE, FALSE)}
+    [] k \in {"lbq","lqb"} -> {El("1", FALSE, TRUE), El(U(n).dim, FALSE, FALSE)}
+    [] k \in BareZero -> {El("1", TRUE, TRUE)}
+    [] OTHER -> {El("1", FALSE, TRUE)}
 
 (* shapes: s scalar, v (2,), c (2,1), m (2,2); flat C order *)
 Bc(a,b) == IF a = "s" THEN b ELSE IF b = "s" THEN a ELSE IF a = b THEN a ELSE "m"
-NEl(sh) == IF sh = "s" THEN 1 ELSE IF sh = "m" THEN 4 ELSE 2
+NEl(sh) == IF sh = "s" THEN 1 ELSE IF sh = "m" THEN 4 ELSE IF sh = "w" THEN 3 ELSE 2
 AtB(o, rsh, k) == IF o.sh = "s" THEN o.vals[1]
                   ELSE IF rsh = "m" THEN (IF o.sh = "c" THEN o.vals[((k-1) \div 2)+1] ELSE o.vals[((k-1) % 2)+1])
                   ELSE o.vals[k]
@@ -161,10 +182,12 @@ Finish(op, form, unitname, o0, o1) ==
    ELSE IF op = "divmod" THEN Tuple(unitname)
    ELSE [k |-> "val", exc |-> "", unit |-> unitname, vk |-> r.vk, v |-> r.v]
 
+CoerceExc(o) == IF o.hetfail THEN "AttributeError" ELSE IF o.mixed THEN "IterableUnitCoercionError" ELSE ""
 UfCore(op, form, o0, o1) ==
   LET u0 == o0.unit  u1 == o1.unit  rule == Rule(op) IN
   \* _coerce_iterable_units: a list of quantities of different dimensions cannot be coerced
-  IF o0.mixed \/ o1.mixed THEN Raise("IterableUnitCoercionError")
+  IF CoerceExc(o0) # "" THEN Raise(CoerceExc(o0))
+  ELSE IF CoerceExc(o1) # "" THEN Raise(CoerceExc(o1))
   \* K/R guard
   ELSE IF rule = "preserve" /\ u0.dim = "Th" /\ ~RIsZero(u1.off) /\ RIsZero(u0.off) /\ u0.name \in {"K","R"}
   THEN Raise("UnitOperationError")
@@ -185,11 +208,15 @@ UfCore(op, form, o0, o1) ==
                hasoff == ~(RIsZero(b1.off) /\ RIsZero(b0.off)) IN
            IF hasoff /\ ~RIsZero(b1.off) /\ ~StartsDelta(b0.name)
            THEN Raise("InvalidUnitOperation")
-           ELSE LET o1c == ScaleVals(o1, ratio)
+           ELSE LET \* a temperature difference + a reading of another scale: the difference is brought to the reading's
+                    \* scale (the result is labelled with it), otherwise operand 1 is brought to operand 0's scale
+                    swap == rule = "preserve" /\ b0.dim = "Th" /\ RIsZero(b0.off) /\ ~RIsZero(b1.off)
+                    o0c == IF swap THEN ScaleVals(o0, RDiv(ROne, ratio)) ELSE o0
+                    o1c == IF swap THEN o1 ELSE ScaleVals(o1, ratio)
                     ru == IF rule = "difference" THEN Difference(b0,b1)
                           ELSE [raise |-> FALSE, unit |-> IF rule = "preserve" THEN Preserve(b0,b1) ELSE b0]
                 IN IF ru.raise THEN Raise("InvalidUnitOperation")
-                   ELSE Finish(op, form, IF rule = "arctan2" THEN "nd" ELSE ru.unit.name, o0, o1c)
+                   ELSE Finish(op, form, IF rule = "arctan2" THEN "nd" ELSE ru.unit.name, o0c, o1c)
   ELSE IF Checked(rule) THEN   \* equal units
      LET ru == IF rule = "difference" THEN Difference(u0,u1)
                ELSE [raise |-> FALSE, unit |-> IF rule = "preserve" THEN Preserve(u0,u1) ELSE u0] IN
@@ -229,19 +256,23 @@ UfOutcome(op, form, o0, o1) ==
 (* T, part 2: array functions (_array_functions.py)                          *)
 (* ------------------------------------------------------------------------ *)
 \* get_units(): ndarray -> its unit or NULL; Number -> NULL; other iterables recursively
-GetUnits(o) == IF o.kind = "lqm" THEN <<o.unit, U(IF o.unit.dim = "L" THEN "ta" ELSE "la")>>
-               ELSE IF o.kind = "lq" THEN <<o.unit, o.unit>> ELSE <<o.unit>>
+GetUnits(o) == CASE o.kind \in {"lqm","tlqm"} -> <<o.unit, OtherUnit(o.unit)>>
+                 [] o.kind = "lqm3" -> <<o.unit, o.unit, OtherUnit(o.unit)>>
+                 [] o.kind \in {"lq","tlq"} -> <<o.unit, o.unit>>
+                 [] o.kind \in {"lzq","lbq"} -> <<Dimless, o.unit>>
+                 [] o.kind = "lqb" -> <<o.unit, Dimless>>
+                 [] OTHER -> <<o.unit>>
 \* _validate_units_consistency: every unit equals the first
 Consistent(us) == \A i \in DOMAIN us : UEq(us[i], us[1])
 IsNumber(o) == o.kind \in BareNumber
 
 ListMerge == {"concatenate","stack","vstack","hstack","dstack","column_stack","block","append"}
-PairCons == {"where","choose","intersect1d","union1d","setdiff1d","setxor1d","isin","interp","linspace","geomspace","einsum"}
+PairCons == {"where","choose","intersect1d","union1d","setdiff1d","setxor1d","isin","interp","linspace","geomspace"}
 V2Fns == {"insert","searchsorted","clip","select"}
 V2InPlace == {"put","place","putmask","put_along_axis","fill_diagonal"}
 CompFns == {"isclose","allclose"}
 EqFns == {"array_equal","array_equiv"}
-ArrOps == ListMerge \cup PairCons \cup V2Fns \cup V2InPlace \cup CompFns \cup EqFns \cup {"copyto","copyto_where","pad","histogram_range"}
+ArrOps == {"einsum"} \cup ListMerge \cup PairCons \cup V2Fns \cup V2InPlace \cup CompFns \cup EqFns \cup {"copyto","copyto_where","pad","histogram_range"}
 BoolResult == {"isin","isclose","allclose"}
 BareResult == {"searchsorted","interp"}
 
@@ -251,6 +282,8 @@ ArrOutcome(op, o0, o1) ==
          IF Consistent(GetUnits(o0) \o GetUnits(o1))
          THEN (IF op \in BoolResult THEN BoolO ELSE IF op \in BareResult THEN ValO("") ELSE ValO(u0.name))
          ELSE Raise("UnitInconsistencyError")
+    [] op = "einsum" ->   \* a product (np.prod of the operands' units): only the offset-temperature guard of Unit.__mul__ refuses
+         IF (~RIsZero(u0.off) /\ u0.dim = "Th") \/ (~RIsZero(u1.off) /\ u1.dim = "Th") THEN Raise("InvalidUnitOperation") ELSE ValO("*")
     [] op \in V2Fns \cup V2InPlace ->
          \* _validate_units_consistency_v2: pure numbers are taken to be in the array's unit
          \* (select always validates: its choicelist is not a Number; the default is given in the first choice's unit)
@@ -298,8 +331,8 @@ Outcome(c) == OutcomeOf(c, Operand(c.k0, c.n0, 0), Operand(c.k1, c.n1, 1))
 \* T accepts either, so the check is silent with and without fixes/C01-*.patch
 OutcomeR(c) ==
   LET o0 == OperandR(c.k0, c.n0, 0)  o1 == OperandR(c.k1, c.n1, 1) IN
-  IF c.fam = "setitem" /\ c.k1 \in ListQ
-  THEN (IF o1.mixed THEN Raise("IterableUnitCoercionError") ELSE SetOutcome(o0, [o1 EXCEPT !.isunyt = TRUE]))
+  IF c.fam = "setitem" /\ c.k1 \in ListQ \cup HetList
+  THEN (IF CoerceExc(o1) # "" THEN Raise(CoerceExc(o1)) ELSE SetOutcome(o0, [o1 EXCEPT !.isunyt = TRUE]))
   ELSE OutcomeOf(c, o0, o1)
 
 (* ------------------------------------------------------------------------ *)
@@ -317,35 +350,42 @@ ArrClass(op) == CASE op \in ListMerge \cup {"where","choose","select","clip","in
                   [] op \in {"searchsorted","isin","interp","isclose","allclose","histogram_range"} -> "compare"
                   [] op \in EqFns -> "equal"
                   [] OTHER -> "none"    \* copyto without where= (the target is an out= buffer: asserted by the suite), einsum (a product)
-DimsDiffer(c) == PDim(c.k0,c.n0) # PDim(c.k1,c.n1) \/ c.k0 = "lqm" \/ c.k1 = "lqm"
+DimsDiffer(c) == PDim(c.k0,c.n0) # PDim(c.k1,c.n1) \/ c.k0 \in MixedQ \/ c.k1 \in MixedQ
 OneDimless(c) == PDim(c.k0,c.n0) = "1" \/ PDim(c.k1,c.n1) = "1"
+\* a sequence that is incommensurable in itself: unit-carrying entries of two dimensions
+Internal(c) == c.k0 \in MixedQ \/ c.k1 \in MixedQ
+\* some entry of one operand meets an entry of the other of a different dimension; an exactly-zero bare entry never
+\* conflicts (documented); with strict = TRUE a dimensionless entry never conflicts either (ordering / closeness)
+Cross(c, strict) == \E e0 \in Elems(c.k0,c.n0), e1 \in Elems(c.k1,c.n1) :
+                      /\ e0.dim # e1.dim /\ ~e0.bz /\ ~e1.bz
+                      /\ (strict => e0.dim # "1" /\ e1.dim # "1")
 \* is a refusal demanded for this case?
 Demanded(c) ==
-  /\ DimsDiffer(c)
-  /\ CASE c.fam = "ufunc" ->
+  CASE c.fam = "ufunc" ->
             /\ c.op \in NeedsComm /\ c.form # "at"
-            \* documented: an all-zero bare number or bare sequence may be added or compared
-            /\ c.k0 \notin BareZero /\ c.k1 \notin BareZero
-            \* documented: ordering comparisons accept a dimensionless operand
-            /\ ~(c.op \in Ordering /\ OneDimless(c))
+            \* documented: an all-zero bare number or bare sequence may be added or compared (bz entries);
+            \* documented: ordering comparisons accept a dimensionless operand (strict)
+            /\ (Internal(c) \/ Cross(c, c.op \in Ordering))
             \* reading rule: a bare initial= is taken to be in the array's unit
             /\ (c.form = "reduce_initial" => c.k1 \in UnytKinds)
-       [] c.fam = "arrfn" ->
+    [] c.fam = "arrfn" ->
             \* not demanded: bare Python numbers and bare zeros in value slots (taken to be in the array's unit; suite asserts it)
             /\ c.k0 \notin BareNumber \cup BareZero /\ c.k1 \notin BareNumber \cup BareZero
             \* not demanded: the documented CGS<->SI electromagnetic conversions reached through .to() inside a handler
             /\ ~EMPair(U(c.n0), U(c.n1))
-            /\ \/ ArrClass(c.op) = "merge"
-               \/ ArrClass(c.op) = "compare" /\ ~OneDimless(c)
-       [] c.fam = "setitem" ->
-            \* not demanded: bare values and dimensionless quantities are stored as given (test_setitem asserts both)
-            c.k1 \in UnytKinds \cup ListQ /\ ~OneDimless(c) /\ ~EMPair(U(c.n0), U(c.n1))
-       [] c.fam = "conv" -> ~EMPair(U(c.n0), U(c.n1))        \* the CGS<->SI electromagnetic pairs are documented conversions
-       [] c.fam = "unitop" -> TRUE
+            /\ \/ ArrClass(c.op) = "merge" /\ (Internal(c) \/ Cross(c, FALSE))
+               \/ ArrClass(c.op) = "compare" /\ (Internal(c) \/ Cross(c, TRUE))
+    [] c.fam = "setitem" ->
+            \* not demanded: bare values (also inside a sequence) and dimensionless quantities are stored as given
+            \* (test_setitem asserts both); a dimensionless target is left to the conversion's own rules
+            /\ c.k1 \in UnytKinds \cup ListQ \cup HetList /\ ~EMPair(U(c.n0), U(c.n1))
+            /\ \/ c.k1 \in MixedQ
+               \/ \E e1 \in Elems(c.k1,c.n1) : ~e1.b /\ e1.dim # U(c.n0).dim /\ e1.dim # "1" /\ U(c.n0).dim # "1"
+    [] c.fam = "conv" -> DimsDiffer(c) /\ ~EMPair(U(c.n0), U(c.n1))        \* the CGS<->SI electromagnetic pairs are documented conversions
+    [] c.fam = "unitop" -> DimsDiffer(c)
 \* == / != between different dimensions answer all-False / all-True (or refuse); array_equal/array_equiv answer False
 EqDemanded(c) ==
-  /\ DimsDiffer(c) /\ ~OneDimless(c)
-  /\ c.k0 \notin BareZero /\ c.k1 \notin BareZero
+  /\ (Internal(c) \/ Cross(c, TRUE))
   /\ \/ c.fam = "ufunc" /\ c.op \in EqNe /\ c.form # "at"
      \/ c.fam = "arrfn" /\ ArrClass(c.op) = "equal"
 AllAre(v, x) == \A i \in DOMAIN v : v[i] = x
